@@ -574,7 +574,7 @@ func (b *Builder) of1(v ssa.Value, at ssa.Instruction, depth int) *Term {
 				l, r, op = r, l, sw
 			}
 		}
-		return b.mk("bin", op, v, l, r)
+		return canonBin(b.mk("bin", op, v, l, r))
 	case *ssa.UnOp:
 		if x.Op == token.MUL {
 			return b.load(x, at, depth)
